@@ -11,7 +11,8 @@ def parse(line):
 d1, e1 = parse(first)
 d2, e2 = parse(cur)
 rnd = sid.split("-")[1]
-origin = {"e": "independent sub-agent (round e: free choice of mechanism, asked to avoid the obvious place; launched after rounds a-d and DESIGN 8.10), given only the property text and a scratch worktree of /repo"}[rnd]
+origin = {"e": "independent sub-agent (round e: free choice of mechanism, asked to avoid the obvious place; launched after rounds a-d and DESIGN 8.10), given only the property text and a scratch worktree of /repo",
+          "f": "independent sub-agent (round f: the change had to be located in one of the ~20 foundation files no earlier seed had touched - utils.py, typing.py, visitor.py, objects/visitor.py, conversions/conversions.py, validation/mock.py, ...; launched after rounds a-e and DESIGN 8.11), given only the property text, that list of files and a scratch worktree of /repo; first run = the checks as committed at 47bbf76, before any of them was strengthened"}[rnd]
 meta = {"seed": sid, "property": prop, "origin": origin, "change": change, "needs_to_manifest": needs,
         "confirmed": {"how": "tools/confirm_seed.sh in the scratch worktree: demo.py exit 0 without the patch, non-zero with it; pinned suite with the patch", "suite": "283 passed, 1 xfailed", "demo_before": 0, "demo_after": 1},
         "detected_on_first_run": d1, "analysis_error_on_first_run": e1, "detected_by": sorted(set(d2) | set(e2)),
